@@ -430,6 +430,7 @@ class PSubsequence(Pattern):
     def reset(self):
         super().reset()
         self.pos = 0
+        self.values = []
 
     def __next__(self):
         offset = Pattern.value(self.offset)
